@@ -421,6 +421,7 @@ impl Runner {
         let b = [self.bal(&p.keys[0], &sender), self.bal(&p.keys[1], &sender)];
         let mut d = [0u128; 2];
         let mut note = String::from("lp");
+        let mut first_slippage: Option<Decimal> = None;
         if s == 0 || r0 == 0 || r1 == 0 {
             for k in 0..2 {
                 let cap = if self.rng.chance(75, 100) {
@@ -442,6 +443,17 @@ impl Runner {
                 }
             }
             note.push_str(" first");
+            // a first provision may carry a tolerance too (the pool may be one-sided after donations)
+            if !setup && self.rng.chance(self.profile.guard_rate / 2, 1000) {
+                let t = n(*self.rng.pick(&[
+                    0u128,
+                    10_000_000_000_000_000,
+                    500_000_000_000_000_000,
+                    999_999_999_999_999_999,
+                    1_000_000_000_000_000_000,
+                ]));
+                first_slippage = Some(atoms_to_decimal(&t));
+            }
         } else {
             // balanced around the current ratio, sometimes deliberately unbalanced
             let k0 = self.rng.pick_idx(2);
@@ -468,7 +480,7 @@ impl Runner {
             }
         }
         // slippage tolerance
-        let mut slippage = None;
+        let mut slippage = first_slippage;
         if !setup && s > 0 && r0 > 0 && r1 > 0 && d[0] > 0 && d[1] > 0 && self.rng.chance(self.profile.guard_rate, 1000) {
             let e18 = N::e18();
             // t* for direction i: 1 - (r_i d_j)/(r_j d_i)
